@@ -47,6 +47,12 @@ Theorem C20_forward_as_tuple_aliases : forall a, is_cat a -> forward_as_tuple_m 
 Proof. exact forward_as_tuple_agrees. Qed.
 Print Assumptions C20_forward_as_tuple_aliases.
 
+(* etl::forward overload by overload (parameter binding, static_assert, static_cast<T&&>, declared return type) computes
+   the rule [forward_e] that every other model function uses for etl::forward<T>(x) *)
+Theorem C20_forward_overloads : forall T e, is_cat e -> forward_m T e = forward_e T e.
+Proof. exact forward_overloads_eq. Qed.
+Print Assumptions C20_forward_overloads.
+
 Example C20_nonvacuous_ctor :
   is_cat RV /\ Forall is_cat [LV; RV; CRV]
   /\ tuple_ctor_all_m [mkty false RNone; mkty false RNone; mkty true RL] [LV; RV; CRV]
